@@ -6,6 +6,7 @@ from vlib.runner import hyp
 
 PROPERTY = 'C06'
 LEVEL = 'exploration'
+EXHAUSTIVE = True      # supported versions x 8 tables: enumerated completely
 RULE = ('Every supported protocol version (enumerated from the version '
         'records) x the 8 state/direction tables: each class must resolve to '
         'an int id >= 0 without raising (T1), ids must be pairwise distinct '
